@@ -64,6 +64,16 @@ def run_case(case, eng, res):
             info["json"] = lambda m: {"set": [{"enum": "Days." + n} for n, g in zip(DAYN, guards) if C.ev_bool(m, g)]}
         elif form in ("list", "tuple"):
             n = case["n"]
+            if case.get("after"):
+                # an earlier, legal call over symbolic days (a memo of its result must not leak into this call)
+                pre = [_day_choice(path, Days, "pre%d" % k) for k in range(case["after"])]
+                dis = b_and(*[b_not(i_eq(pre[a][1], pre[b][1])) for a in range(len(pre)) for b in range(a + 1, len(pre))])
+                path.assume(bterm(dis))
+                try:
+                    tools.weekdays_to_hexadecimal([p[0] for p in pre])
+                except Exception:  # noqa: BLE001
+                    pass
+                info["before"] = lambda m: [{"enum": "Days." + DAYN[C.ev_int(m, p[1])]} for p in pre]
             els, idxs = [], []
             for k in range(n):
                 d, idx = _day_choice(path, Days, "el%d" % k)
@@ -166,6 +176,13 @@ def run_case(case, eng, res):
 
 
 def _replay(form, info, m):
+    r = _replay0(form, info, m)
+    if "before" in info:
+        r["before"] = [[info["before"](m)]]
+    return r
+
+
+def _replay0(form, info, m):
     if form == "decode":
         return {"kind": "call", "func": "schedule.tools:bit_summary_to_days", "args": [info["json"](m)], "oracle": "C12dec"}
     if form == "roundtrip":
@@ -179,6 +196,8 @@ def main(tier):
     for f in ("list", "tuple"):
         for n in range(0, 4 if tier == "quick" else 5):
             cases.append({"form": f, "n": n})
+    cases.append({"form": "list", "n": 3, "after": 2})
+    cases.append({"form": "list", "n": 2, "after": 1})
     results = H.run_cases("harness.C12", "run_case", cases)
     nw = H.validate_call_witnesses(results)
     H.finish(PID, tier, "model_checking", results, t0,
